@@ -412,6 +412,7 @@ class IMAPClientCommand:
         self.msg_set: MsgSet = []
         self.fetch_atts: list[FetchAtt] = []
         self.message: EmailMessage
+        self.message_octets: bytes | None = None
 
         # If we are doing a `STORE.SILENT` command then `silent` is True
         #
@@ -846,9 +847,16 @@ class IMAPClientCommand:
         # as a message structure right away (I hope this works in all cases,
         # even with draft messages.)
         #
-        self.message = message_from_string(
-            self._p_string(), policy=email.policy.SMTP
-        )
+        # NOTE: What gets stored are the octets the client sent
+        #       (`message_octets`): a message that has gone through the email
+        #       package's parser and generator is not the same message any
+        #       more (line ends, header folding and encoding, a missing
+        #       closing boundary added) and one with 8-bit text in it could not
+        #       be written at all.
+        #
+        literal = self._p_string()
+        self.message_octets = literal.encode("latin-1", errors="replace")
+        self.message = message_from_string(literal, policy=email.policy.SMTP)
         # XXX Remove this after we are sure our MHMessage -> EmailMessage
         #     conversion.
         # self.message = mailbox.MHMessage(self._p_string())
